@@ -374,9 +374,17 @@ def r12_2b_named_ints(ctx):
     n = 0
     for fn in ctx.model.modules.values():
         for node in ast.walk(fn.tree):
-            if isinstance(node, ast.Call) and u(node.func) == "EnumInt" and node.args and isinstance(node.args[0], ast.Constant):
+            if isinstance(node, ast.Call) and u(node.func) == "EnumInt" and node.args:
+                a0 = node.args[0]
+                if isinstance(a0, ast.Constant):
+                    name = a0.value
+                elif isinstance(a0, ast.Attribute) and isinstance(a0.value, ast.Name) and fn.imports.get(a0.value.id, "").startswith("algosdk"):
+                    name = _sdk_module_constant(fn.imports[a0.value.id], a0.attr)
+                    if name is None:
+                        continue
+                else:
+                    continue  # EnumInt(<parameter>) inside the class itself
                 n += 1
-                name = node.args[0].value
                 tgt = getattr(node, "parent", None)
                 attr = u(tgt.targets[0]) if isinstance(tgt, ast.Assign) else None
                 ctx.check(name in TL.NAMED_INTS, "R12.2", f"EnumInt({name!r})", f"EnumInt({name!r}) is not a named integer constant of the AVM", f"{fn.rel}:{node.lineno}", fact={"bound_to": attr})
